@@ -183,7 +183,7 @@ func (w *World) blockCoq(b *BlockIn, o *BlockOut) string {
 		txs = append(txs, w.txCoq(&b.Txs[i], &o.Txs[i]))
 	}
 	for _, e := range o.Pool {
-		evs = append(evs, fmt.Sprintf("(%d, %s)", e[0], zi(e[1])))
+		evs = append(evs, fmt.Sprintf("(%d, %s, %s)", e[0], zi(e[1]), bl(e[2] == 1)))
 	}
 	ob := "None"
 	if o.Crashed == "" && o.Obs != nil {
